@@ -128,6 +128,18 @@ func runProperty(p *Program, s *Specs, prop string, cfg SolveConfig) *CheckResul
 		}
 		res.Units = append(res.Units, u)
 	}
+	if prop == "C12" {
+		// channel ownership / cancellation discipline over the whole repository (structural, see ownership.go)
+		a := newOwnAnalysis(p)
+		u := &unitResult{key: "channel ownership (all make(chan) sites of /repo)", kind: "ownership"}
+		results := a.checkChannels()
+		results = append(results, a.checkWaitPath("command.startScanEngine")...)
+		for _, r := range results {
+			u.obls = append(u.obls, &Obligation{Name: r.name, Kind: "ownership", Func: "ownership", Props: []string{"C12"},
+				Structural: true, StructOK: r.ok, StructMsg: r.msg, Text: r.msg})
+		}
+		res.Units = append(res.Units, u)
+	}
 	for _, u := range res.Units {
 		res.Obls = append(res.Obls, u.obls...)
 		res.Errs = append(res.Errs, u.errs...)
